@@ -382,6 +382,7 @@ int main(int argc, char **argv) {
   Harness h;
   h.property_id = "C20";
   h.run = run;
+  h.shrink_budget = 3000;
   h.base = 40;
   h.per_size = 14;
   h.always_isolate = true;
